@@ -516,6 +516,8 @@ func checkC03(w *World, r *Report) {
 		opts := pathOpts{InlineDepth: 3, Inline: noInline(trig, pred)}
 		rulePredicate(w, r, "C03", trig, pred, opts)
 		ruleClamp(w, r, "C03", trig, pred, opts)
+		// a finished bar's final state (and its remove flag) is not touched by a late Abort
+		ruleAbort(w, r, "C03", trig, pred, opts)
 	}
 	ruleStatisticsFaithful(w, r, "C03")
 	ruleStateAgrees(w, r, "C03")
@@ -591,6 +593,8 @@ func ruleStatisticsFaithful(w *World, r *Report, pfx string) {
 func checkC13(w *World, r *Report) {
 	r.Explain = "Structural clauses: the Write closure calls the current writer's Write exactly once with the caller's slice and replies its (n, err) unchanged; the reply protocol is paired; closures are called synchronously by the single container loop in receive order; the cwriter buffer is used only in the container role, row writes happen only inside flush (after the text already in the buffer), so text cannot land inside a row; on done (auto refresh, no error) a final render and the writer's Flush are reached before the end request; a late Write returns (0, ErrDone) without effect. Decides these on all paths; the byte stream is not interpreted; manual-refresh containers have no final frame by construction; text accepted before a render error is dropped with the frame (fault histories are outside the property's quantifier)."
 	r.Assume = append(r.Assume, "bytes.Buffer appends in call order", "C01")
+	// accepted text is on the output before Wait returns: Wait = bars, then Shutdown = cancel, then the container goroutine
+	ruleWaitChain(w, r, "C13")
 	clo, off := w.apiClosure(r, "mpb.(*Progress).Write")
 	if clo != nil {
 		meth := off.Fn
